@@ -2,9 +2,9 @@ SPECIFICATION Spec
 CONSTANTS
   MaxSteps = 6
   MaxIno = 4
-  FIX_REPOINT = FALSE
-  OPS = FALSE
+  FIX_REPOINT = TRUE
+  OPS = TRUE
   MASK_ADD = TRUE
   ALIAS_OPS = FALSE
-INVARIANTS NoPanic TablesAgree MarksBacked ListOK
+INVARIANTS NoPanic TablesAgree MarksBacked ListOK MaskOK
 CHECK_DEADLOCK FALSE
